@@ -25,6 +25,7 @@ fn with_prop(id: &str, f: &mut dyn FnMut(&dyn Runner)) -> bool {
         "C10" => f(&props::c10::C10),
         "C12" => f(&props::c12::C12),
         "C13" => f(&props::c13::C13),
+        "C17" => f(&props::c17::C17),
         _ => return false,
     }
     true
